@@ -34,7 +34,9 @@ func (s *sudog[T]) stale() bool { return s.dead || (s.sel != nil && s.sel.fired)
 func Make[T any](site string, n int) *Chan[T] {
 	w := W
 	if w == nil {
-		panic("vrt.Make outside Run: " + site)
+		// a package-level initialiser running at process start: the variable is
+		// re-initialised at the start of every execution before anything can use it
+		return &Chan[T]{label: site + "(outside any execution)", cap: n}
 	}
 	if n < 0 {
 		panic("makechan: size out of range")
